@@ -177,3 +177,34 @@ void h_sse_match_length_bounded(void) {
   if (r == 48) CQV_CANARY("full match possible");
   CQV_CANARY("returns");
 }
+
+/* byte-stream split float, bounded in count (0..47: every remainder mod 4, up to 11 vector steps),
+ * symbolic data, exact-size buffers (any access outside [0, 4*count) is out of bounds) */
+void h_sse_bss_encode_float_bounded(void) {
+  int64_t count = nondet_i64();
+  __CPROVER_assume(0 <= count && count <= 47);
+  float *values = malloc((size_t)count * 4);
+  uint8_t *out = malloc((size_t)count * 4);
+  __CPROVER_assume(values != NULL && out != NULL);
+  int64_t k = nondet_i64(); int b = nondet_int();
+  __CPROVER_assume(0 <= k && k < count && 0 <= b && b < 4);
+  uint8_t want = ((const uint8_t *)values)[k * 4 + b];
+  carquet_sse_byte_stream_split_encode_float(values, count, out);
+  __CPROVER_assert(out[b * count + k] == want, "stream b, position k holds byte b of value k");
+  if (count == 47) CQV_CANARY("vector and tail steps taken");
+  CQV_CANARY("returns");
+}
+void h_sse_bss_decode_float_bounded(void) {
+  int64_t count = nondet_i64();
+  __CPROVER_assume(0 <= count && count <= 47);
+  uint8_t *data = malloc((size_t)count * 4);
+  float *values = malloc((size_t)count * 4);
+  __CPROVER_assume(values != NULL && data != NULL);
+  int64_t k = nondet_i64(); int b = nondet_int();
+  __CPROVER_assume(0 <= k && k < count && 0 <= b && b < 4);
+  uint8_t want = data[b * count + k];
+  carquet_sse_byte_stream_split_decode_float(data, count, values);
+  __CPROVER_assert(((const uint8_t *)values)[k * 4 + b] == want, "byte b of value k comes from stream b, position k");
+  if (count == 47) CQV_CANARY("vector and tail steps taken");
+  CQV_CANARY("returns");
+}
